@@ -236,7 +236,10 @@ func caseStream(r *gen.Rand, idx int) {
 		Err: parseErr || !info.Ok, Rows: rows, Judged: true, Nontrivial: true, Stream: info}
 	switch {
 	case parseErr:
-		c.Oracle = append(c.Oracle, OracleFail{"none", "a block of valid lines was refused by the parser"})
+		// a refused block stores nothing: not a matter of the property (the cutting discipline is checked by the model
+		// comparison, mass refusal by run.py's vacuity guard)
+		c.Sub += " valid-refused"
+		c.Judged = false
 	case !info.Ok:
 		// the reader gave up (read error, line longer than max-line-size): the delivered blocks must be whole lines of
 		// the body, in order, from its beginning. The model comparison below is on the delivered text.
